@@ -704,4 +704,125 @@ Section Out.
     - rewrite E. apply kpush_qext. intros a Ha. cbn. destruct (HJ a Ha) as [_ Hn]. rewrite <- Ew0. intros Eq. exact (Hn w0 Hw0 (eq_sym Eq)).
     - intros a Ha. cbn. destruct (HJ a Ha) as [L Hn]. split; [exact L|]. intros kw Hk. apply filter_In in Hk as [Hk _]. now apply Hn.
   Qed.
+
+  (* ---------------------------------------------------------------- the state right after a directory left the tree *)
+  Definition rclr (r : rstate) : rstate := {| wfp := wfp r; pfw := pfw r; mvf := mvf r; calls := calls r; pend := None |}.
+
+  (* h = where the departed directory is now; (c, p) = the pending candidate: cookie and old path *)
+  Record POut (w : world) (k : kst) (r : rstate) (h : bytes) (c : N) (p : bytes) : Prop := {
+    po_pend : pend r = Some (c, p);
+    po_cookie : (c < k_next_cookie k)%N;
+    po_queue : k_queue k = [];
+    po_tight : tight r;
+    po_lt : forall kw, In kw (k_watches k) -> (kw_wd kw < k_next_wd k)%N;
+    po_wds : NoDup (map kw_wd (k_watches k));
+    po_live : forall x wd, alookup beqb x (wfp r) = Some wd -> exists kw, In kw (k_watches k) /\ kw_wd kw = wd;
+    (* forgetting the departed sub-tree gives a synchronised state *)
+    po_clean : RSync C w (kset_queue (snd (forget_tree (wfp r) p (rclr r) k)) []) (fst (forget_tree (wfp r) p (rclr r) k));
+    po_cover : Cover C (w_fs w) k r;
+    (* the watches that will be forgotten sit on directories at or below h *)
+    po_stale : forall kw, In kw (k_watches k) -> fz r p (kw_wd kw) ->
+               exists e, In e (w_fs w) /\ f_ino e = kw_ino kw /\ blw h (f_path e) = true
+  }.
+
+  Lemma blw_frename p q t1 : p <> q -> under p q = false -> under q p = false ->
+    forall e, In e (frename p q t1) -> blw p (f_path e) = false.
+  Proof.
+    intros Hne Hpq Hqp e He. rewrite CoverProofs.frename_map in He. apply in_map_iff in He as (e0 & <- & _). rewrite ren_path.
+    unfold blw. destruct (bytes_eq_dec (f_path e0) p) as [E|E].
+    - rewrite E, rk_self. apply beqb_neq in Hne. rewrite beqb_neq in Hne. assert (Hq' : beqb q p = false) by (apply beqb_neq; congruence).
+      now rewrite Hq', Hpq.
+    - destruct (under p (f_path e0)) eqn:Eu.
+      + apply under_spec in Eu as [s ->]. rewrite rk_under. rewrite under_disjoint by assumption. rewrite orb_false_r.
+        apply beqb_neq. intros E'. rewrite <- E', under_app in Hqp. discriminate.
+      + rewrite rk_other by assumption. apply beqb_neq in E. now rewrite E, Eu.
+  Qed.
+
+  (* a directory of the tree moved out: the candidate is pending *)
+  Theorem out_pout w k r p q w' ep : RSync C w k r -> npath p -> npath q -> c_recursive C = true ->
+    N.land IN_MOVED_FROM (c_mask C) <> 0%N -> N.land IN_MOVED_TO (c_mask C) <> 0%N ->
+    apply_op w (Rename p q) = Some w' -> flookup p (w_fs w) = Some ep -> f_dir ep = true ->
+    scope C p -> p <> root -> ~ scope C q ->
+    let k1 := kernel_op k (w_fs w) (Rename p q) in
+    exists r' k' evs, read_batch C (w_fs w') (r, drainq k1, []) (k_queue k1) = Done (r', k', evs) /\
+      POut w' k' r' q (k_next_cookie k) p /\ Forall (rsafe C) evs.
+  Proof.
+    intros S Np Nq Hrec Hmf Hmt Ha Elp Dep Sp Hpr Sq k1.
+    destruct (step_rename_dir_out C w k r p q w' ep S Np Nq Hrec Hmf Hmt Ha Elp Dep Sp Hpr Sq)
+      as (r' & k' & evs & Hrd & W' & Hroot' & Cv' & Hq' & Ewf & Epf & Ewa & Epd & Emv & Enw & Enc & Hsafe).
+    rewrite Hmo in Epd. exists r', k', evs. split; [exact Hrd|]. split; [|exact Hsafe].
+    destruct S as [W Hr I Cv Hq Hpd].
+    destruct (rename_inv w p q w' W Np Nq Ha) as (ep' & t1 & Elp' & Hne & Hupq & Edq & -> & Hbelow & Hq1).
+    assert (ep' = ep) by congruence. subst ep'. destruct (flookup_some _ _ _ Elp) as [Hep Eep].
+    assert (Hqp : under q p = false) by (rewrite <- Eep; now apply Hbelow).
+    assert (Tr : tight r') by (intros x wd Hx; rewrite Ewf in Hx; rewrite Epf; now apply (wi_tight _ _ _ _ I)).
+    assert (Tc : tight (rclr r')) by exact Tr.
+    set (c := k_next_cookie k) in *.
+    assert (Hsub : forall e, In e t1 -> In e (w_fs w)).
+    { intros e He. destruct Hq1 as [[_ ->]|(v & _ & -> & _)]; [assumption | now apply fremove_in in He]. }
+    assert (Hint1 : forall e, In e (w_fs w) -> f_path e <> q -> In e t1).
+    { intros e He Hn. destruct Hq1 as [[_ ->]|(v & _ & -> & _)]; [assumption | now apply fremove_in]. }
+    (* keys of the table *)
+    assert (Hkeys : forall x wd, alookup beqb x (wfp r) = Some wd -> In x (map fst (wfp r))).
+    { intros x wd Hx. apply (alookup_in beqb beqb_eq) in Hx. now apply (in_map fst) in Hx. }
+    destruct (forget_tree (wfp r') p (rclr r') k') as [rC kC] eqn:Ef.
+    destruct (forget_tree_spec p _ _ _ _ _ Tc Ef) as (T' & W0 & W1 & W2 & P1 & P0 & P2 & M & Pd & (f & F1 & F2 & F3) & N1 & N2 & Q).
+    cbn [rclr wfp pfw mvf pend] in W0, W1, W2, P1, P0, P2, M, Pd, F2, F3. rewrite ?Ewf, ?Epf in *.
+    assert (Hnofz : forall x wd, blw p x = false -> alookup beqb x (wfp r) = Some wd -> ~ fz (rclr r') p wd).
+    { intros x wd Hb Hx (x' & Hb' & Hx'). cbn [rclr wfp] in Hx'. rewrite Ewf in Hx'.
+      assert (x' = x) by (apply (wi_tight _ _ _ _ I) in Hx as [_ Hx]; apply (wi_tight _ _ _ _ I) in Hx' as [_ Hx']; congruence).
+      congruence. }
+    assert (Hkeep : forall kw x, In kw (k_watches k) -> blw p x = false -> alookup beqb x (wfp r) = Some (kw_wd kw) -> f kw = true).
+    { intros kw x Hk Hb Hx. destruct (f kw) eqn:E; [reflexivity|]. exfalso. exact (Hnofz x _ Hb Hx (F2 kw E)). }
+    constructor; try assumption.
+    - cbn. unfold c. rewrite Enc. lia.
+    - intros kw Hk. rewrite Ewa in Hk. rewrite Enw. now apply (wi_lt _ _ _ _ I).
+    - rewrite Ewa. apply I.
+    - intros x wd Hx. rewrite Ewf in Hx. rewrite Ewa. apply (wi_tight _ _ _ _ I) in Hx as [Hx _]. exact Hx.
+    - (* the clean state *)
+      rewrite Ewf, Ef. cbn [fst snd].
+      assert (Hwk : k_watches (kset_queue kC []) = filter f (k_watches k)) by (cbn; now rewrite F1, Ewa).
+      constructor; try assumption.
+      + constructor; rewrite ?Hwk; cbn [kset_queue k_next_wd k_next_cookie].
+        * intros kw Hk. apply filter_In in Hk as [Hk _]. rewrite N1, Enw. now apply (wi_lt _ _ _ _ I).
+        * apply NoDup_map_filter, I.
+        * apply NoDup_map_filter, I.
+        * intros kw Hk. apply filter_In in Hk as [Hk _]. now apply (wi_mask _ _ _ _ I).
+        * intros kw Hk. apply filter_In in Hk as [Hk Hf].
+          destruct (wi_exact _ _ _ _ I kw Hk) as (e & He & De & Se & Ie & Pe & We).
+          assert (Hb : blw p (f_path e) = false).
+          { destruct (blw p (f_path e)) eqn:Eb; [|reflexivity]. exfalso.
+            rewrite (F3 (f_path e) (kw_wd kw) kw Eb (Hkeys _ _ We) We eq_refl) in Hf. discriminate. }
+          assert (Hren : ren p q e = e).
+          { unfold blw in Hb. apply orb_false_iff in Hb as [B1 B2]. unfold ren. now rewrite B1, B2. }
+          exists e. split; [|split; [exact De|split; [exact Se|split; [exact Ie|split]]]].
+          -- cbn [w_fs]. rewrite CoverProofs.frename_map, <- Hren. apply in_map. apply Hint1; [exact He|]. intros E. apply Sq. now rewrite <- E.
+          -- rewrite P1 by (eapply Hnofz; eauto). exact Pe.
+          -- now rewrite W1.
+        * intros x wd HxC. assert (Hx := W0 _ _ HxC). destruct (wi_tight _ _ _ _ I x wd Hx) as ((kw & Hk & Ek) & Hp).
+          assert (Hb : blw p x = false).
+          { destruct (blw p x) eqn:Eb; [|reflexivity]. exfalso. rewrite (W2 x Eb (Hkeys _ _ Hx)) in HxC. discriminate. }
+          split; [exists kw; split; [apply filter_In; split; [exact Hk | apply (Hkeep kw x Hk Hb); now rewrite Ek] | exact Ek]|].
+          rewrite P1 by (eapply Hnofz; eauto). exact Hp.
+        * rewrite M, Emv. intros c' x Hx. rewrite N2, Enc. apply (mvf_aset_lt (mvf r) c p 0%N (wi_mvf _ _ _ _ I) c' x Hx).
+      + intros e' He' De' Se'. destruct (Cv' e' He' De' Se') as (kw & C1 & C2 & C3). rewrite Epf in C2. rewrite Ewf in C3.
+        assert (Hb : blw p (f_path e') = false) by (apply (blw_frename p q t1 Hne Hupq Hqp); exact He').
+        destruct (watch_of_ino_some _ _ _ C1) as [Hk Ei]. rewrite Ewa in Hk.
+        exists kw. split; [|split].
+        * apply watch_of_ino_in; [rewrite Hwk; apply NoDup_map_filter, I | rewrite Hwk; apply filter_In; split; [exact Hk | now apply (Hkeep kw (f_path e'))] | exact Ei].
+        * rewrite P1 by (eapply Hnofz; eauto). exact C2.
+        * now rewrite W1.
+      + reflexivity.
+    - (* the stale watches *)
+      intros kw Hk (x & Hb & Hx). cbn [wfp] in Hx. rewrite Ewf in Hx. rewrite Ewa in Hk.
+      destruct (tight_entry C w k r x _ I Hx) as (e & kw0 & He & De & Se & Ee & Hk0 & Ew0 & Ei0).
+      assert (kw0 = kw) by (apply (wd_inj k); [apply I| | |]; assumption). subst kw0.
+      assert (Hnq : f_path e <> q).
+      { intros E. rewrite Ee in E. subst x. unfold blw in Hb. apply orb_true_iff in Hb as [Hb|Hb]; [apply beqb_eq in Hb; congruence | congruence]. }
+      exists (ren p q e). rewrite ren_ino, ren_path. split; [|split; [congruence|]].
+      + cbn [w_fs]. rewrite CoverProofs.frename_map. apply in_map. now apply Hint1.
+      + rewrite Ee. unfold blw in Hb. apply orb_true_iff in Hb as [Hb|Hb].
+        * apply beqb_eq in Hb. subst x. rewrite rk_self. unfold blw. now rewrite beqb_refl.
+        * apply under_spec in Hb as [s ->]. rewrite rk_under. unfold blw. now rewrite under_app, orb_true_r.
+  Qed.
 End Out.
